@@ -29,19 +29,19 @@ type Ctx struct {
 	W     *batch.Workspace
 	Start time.Time
 
-	mu        sync.Mutex
-	cov       map[string]any
-	samples   []any
-	evals     int
-	distinct  map[string]bool
-	rule      string
-	assume    []string
-	viols     []*Violation
-	violKeys  map[string]int
-	known     []*KnownFinding
-	knownHit  map[string]int
-	inconcl   map[string]int
-	broken    []string
+	mu         sync.Mutex
+	cov        map[string]any
+	samples    []any
+	evals      int
+	distinct   map[string]bool
+	rule       string
+	assume     []string
+	viols      []*Violation
+	violKeys   map[string]int
+	known      []*KnownFinding
+	knownHit   map[string]int
+	inconcl    map[string]int
+	broken     []string
 	exhaustive bool
 }
 
